@@ -1355,7 +1355,7 @@ static EntryTableDArray bufr_tabled_read (EntryTableDArray addr_tabled, const ch
    fp = fopen ( filename, "rb" ) ;
    if (fp == NULL)
 		{
-      sprintf( ligne, _("Warning: can't open Table D file %s\n"), filename );
+      snprintf( ligne, sizeof(ligne), _("Warning: can't open Table D file %s\n"), filename );
       bufr_print_debug( ligne );
       return NULL;
       }
